@@ -51,6 +51,14 @@ def check_core_family(prop, tier):
     s = _summary(out)
     extra_viol = []
     extra_cov = {}
+    lemma = {"C06": ("MC_Pae.tla", "MC_Pae.cfg"), "C03": ("MC_B64.tla", "MC_B64.cfg")}.get(prop)
+    lemma_cov = {}
+    if lemma:
+        # byte-level lemma the symbolic model relies on: PAE is injective (C06: same concatenation, different
+        # split) / canonical base64url strings are in bijection with byte strings (C03: one text per payload)
+        lres = verif.run_tlc(lemma[0], lemma[1], workers=1, timeout=900)
+        verif.require_model_ok(lres, lemma[0])
+        lemma_cov = {"byte_level_lemma": lemma[0].replace(".tla", "") + " checked by TLC (%.1fs)" % lres["wall"]}
     if prop in ("C05", "C06"):
         # direct observations on produced tokens (footer segment text, hidden assertion)
         out2 = os.path.join(verif.WORK, "minted_%s_%s.json" % (prop, tier))
@@ -101,6 +109,7 @@ def check_core_family(prop, tier):
         "exhaustive": False,
     }
     coverage.update(extra_cov)
+    coverage.update(lemma_cov)
     verif.write_evidence(prop, tier, coverage, CORE_ASSUMPTIONS, time.time() - t0, s["nviol"] + len(extra_viol))
     return 1 if fresh > 0 else 0
 
